@@ -13,6 +13,8 @@ import PV.Spec.Map
 import PV.Spec.TableInv
 import PV.Model.Fold
 import PV.Model.B64filter
+import PV.Model.Tools
+import PV.Spec.FirstOcc
 import PV.Spec.Base64
 /-
 One function per unit: `List String` (the operation's arguments) to one output line.
@@ -235,6 +237,92 @@ def b64f (op : String) (args : List String) : String :=
     | _, _ => "bad-op"
   | _, _ => "bad-op"
 
+open PV.Tools in
+def toolRanges (fspec : String) : Option (List PV.Fields.FieldRange) :=
+  match unhex fspec with
+  | some s => PV.Fields.parseAndDefragment s
+  | none => none
+
+def recs (bs : List UInt8) : List (List UInt8) := PV.Spec.Records.splitRecords 10 true bs
+def unl (ls : List (List UInt8)) : String := hex (PV.Spec.Records.unlines ls)
+
+def tools (op : String) (args : List String) : String :=
+  match op, args with
+  | "dedupe", [f, d, h] =>
+    match toolRanges f, unhex d, unhex h with
+    | some rs, some [dl], some input =>
+      let ls := recs input
+      match PV.Tools.dedupe (PV.Tools.dedupeKey rs dl) ls with
+      | some out => s!"ok {unl out} {out.length} {ls.length}"
+      | none => "DIVERGED"
+    | none, _, _ => "ERR:badfield"
+    | _, _, _ => "bad-op"
+  | "spec.dedupe", [f, d, h] =>      -- first occurrence by the selected TEXT (cut semantics)
+    match toolRanges f, unhex d, unhex h with
+    | some rs, some [dl], some input =>
+      let out := PV.Spec.FirstOcc.firstOccBy (fun l => PV.Spec.Fields.cutSelect rs dl l) (recs input)
+      s!"ok {unl out}"
+    | none, _, _ => "ERR:badfield"
+    | _, _, _ => "bad-op"
+  | "dedupepar", [f, d, h0, h1] =>
+    match toolRanges f, unhex d, unhex h0, unhex h1 with
+    | some rs, some [dl], some i0, some i1 =>
+      let l0 := recs i0
+      let l1 := recs i1
+      if l1.length < l0.length then "ERR:eof"            -- in1.ReadLine() throws EndOfFileException
+      else
+        match PV.Tools.dedupePar (PV.Tools.dedupeKey rs dl) (l0.zip l1) with
+        | some out =>
+          if l1.length > l0.length then s!"UNBALANCED {unl (out.map (·.1))} {unl (out.map (·.2))}"
+          else s!"ok {unl (out.map (·.1))} {unl (out.map (·.2))}"
+        | none => "DIVERGED"
+    | none, _, _, _ => "ERR:badfield"
+    | _, _, _, _ => "bad-op"
+  | "spec.dedupepar", [f, d, h0, h1] =>
+    match toolRanges f, unhex d, unhex h0, unhex h1 with
+    | some rs, some [dl], some i0, some i1 =>
+      let out := PV.Spec.FirstOcc.parSpec (fun l => PV.Spec.Fields.cutSelect rs dl l) ((recs i0).zip (recs i1))
+      s!"ok {unl (out.map (·.1))} {unl (out.map (·.2))}"
+    | _, _, _, _ => "bad-op"
+  | "shard", [n, f, d, h] =>
+    match n.toNat?, toolRanges f, unhex d, unhex h with
+    | some n, some rs, some [dl], some input =>
+      if n == 0 then "ERR:zero-shards" else
+      "ok" ++ String.join ((PV.Tools.shard (PV.Tools.shardKey rs dl) n (recs input)).map (fun f => " " ++ unl f))
+    | _, none, _, _ => "ERR:badfield"
+    | _, _, _, _ => "bad-op"
+  | "shardnames", [p, n] =>
+    match n.toNat? with
+    | some n => "ok " ++ " ".intercalate (PV.Tools.shardNames p n)
+    | none => "bad-op"
+  | "long", [lim, h] =>
+    match lim.toNat?, unhex h with
+    | some lim, some input => s!"ok {unl (PV.Tools.removeLongLines lim (recs input))}"
+    | _, _ => "bad-op"
+  | "utf8", [h] =>
+    match unhex h with
+    | some input => s!"ok {unl (PV.Tools.removeInvalidUtf8 (recs input))}"
+    | none => "bad-op"
+  | "utf8b64", [h] =>
+    match unhex h with
+    | some input => match PV.Tools.removeInvalidUtf8Base64 (recs input) with
+      | some out => s!"ok {unl out}"
+      | none => "ERR:abort"
+    | none => "bad-op"
+  | "subtract", [sub, h] =>
+    match unhex sub, unhex h with
+    | some sub, some input => match PV.Tools.subtractLines PV.Tools.lineKey (recs sub) (recs input) with
+      | some out => s!"ok {unl out}"
+      | none => "DIVERGED"
+    | _, _ => "bad-op"
+  | "cc", [rm, h] =>
+    match unhex rm, unhex h with
+    | some rm, some input => match PV.Tools.commoncrawlDedupe PV.Tools.lineKey (recs rm) (recs input) with
+      | some out => s!"ok {unl out}"
+      | none => "DIVERGED"
+    | _, _ => "bad-op"
+  | _, _ => "bad-op"
+
 def dispatch (line : String) : String :=
   match words line with
   | [] => "bad-op"
@@ -247,6 +335,8 @@ def dispatch (line : String) : String :=
     | ["murmur", op] => murmur op args
     | ["fold", op] => fold op args
     | ["b64f", op] => b64f op args
+    | ["tools", op] => tools op args
+    | ["tools", "spec", op] => tools ("spec." ++ op) args
     | ["murmur", "spec", op] => murmur ("spec." ++ op) args
     | ["fields", op] => fields op args
     | ["fields", "spec", op] => fields ("spec." ++ op) args
